@@ -214,25 +214,27 @@ theorem shutdownV1_acct (s : St) (hl : s.loop = .idle) (hw : s.bm.waiting = []) 
   simp only [hf]
   omega
 
+theorem removeAt_items (b : Buf) (i : Nat) : (removeAt b i).items = b.items.eraseIdx i := rfl
+
 theorem afterTake_acct (c : BCfg) (s : St) (a : Nat) (acc acc' : Acc) (sl : Bool) (i : Nat) (op : Op)
-    (hloop : s.loop = .cycle a acc) (hcur : s.bm.buf.cur = some i) (hop : s.bm.buf.items[i]? = some op)
+    (hloop : s.loop = .cycle a acc) (hop : s.bm.buf.items[i]? = some op)
     (hp : PendOK s) (extra : Nat) (hacc : costB acc'.openB + extra = costB acc.openB + op.cost)
     (ha : Acct s) :
-    (afterTake c s a acc' sl).target = costL (afterTake c s a acc' sl).bm.buf.items + costPend (afterTake c s a acc' sl).pend
+    (afterTake c s i a acc' sl).target = costL (afterTake c s i a acc' sl).bm.buf.items + costPend (afterTake c s i a acc' sl).pend
       + costB acc'.openB + extra + costUnfinished s.batches + costL s.discarded := by
   have hrem := costL_eraseIdx s.bm.buf.items i op hop
-  rw [← buf_remove_items s.bm.buf i hcur] at hrem
+  rw [← removeAt_items s.bm.buf i] at hrem
   have hopen : costOpen s = costB acc.openB := by unfold costOpen; rw [hloop]
   unfold Acct outstanding at ha
   rw [hopen] at ha
-  have key : costL (afterTake c s a acc' sl).bm.buf.items + costPend (afterTake c s a acc' sl).pend
-      = costL s.bm.buf.remove.1.items + costPend s.pend := by
+  have key : costL (afterTake c s i a acc' sl).bm.buf.items + costPend (afterTake c s i a acc' sl).pend
+      = costL (removeAt s.bm.buf i).items + costPend s.pend := by
     unfold afterTake
     cases c.gen with
     | v2 => simp [afterTakeV2]
     | v1 =>
       simp only [afterTakeV1]
-      have hp0 : PendOK ({ s with bm := { s.bm with buf := s.bm.buf.remove.1 }, slots := slotsAfter c s sl, loop := .cycle a acc' } : St) :=
+      have hp0 : PendOK ({ s with bm := { s.bm with buf := removeAt s.bm.buf i }, slots := slotsAfter c s sl, loop := .cycle a acc' } : St) :=
         pendOK_congr rfl rfl rfl hp
       exact v1Handoff_acct _ hp0
   rw [afterTake_target]; omega
@@ -349,7 +351,7 @@ theorem step_acct (c : BCfg) (s s' : St) (l : Label) (h : step c s l = some s')
             cases h
             have hc := (stepOp_cost (cycleCfg c allow) acc (slotFree c s) op hstep).2
             simp only [optCost] at hc
-            have := afterTake_acct c s allow acc acc' slot i op hloop hcur hop hp 0 (by omega) ha
+            have := afterTake_acct c s allow acc acc' slot i op hloop hop hp 0 (by omega) ha
             unfold Acct outstanding
             simp only [afterTake_batches, afterTake_discarded, costOpen, afterTake_loop]
             omega
@@ -359,9 +361,9 @@ theorem step_acct (c : BCfg) (s s' : St) (l : Label) (h : step c s l = some s')
             have hc := (stepOp_cost (cycleCfg c allow) acc (slotFree c s) op hstep).2
             obtain ⟨w, b⟩ := p
             simp only [optCost] at hc
-            have := afterTake_acct c s allow acc acc' slot i op hloop hcur hop hp (costL b) hc ha
+            have := afterTake_acct c s allow acc acc' slot i op hloop hop hp (costL b) hc ha
             unfold Acct outstanding
-            have hr := raise_outstanding c (afterTake c s allow acc' slot) (w, b)
+            have hr := raise_outstanding c (afterTake c s i allow acc' slot) (w, b)
             simp only [raise_target, raise_bm, raise_pend, raise_discarded, costOpen, raise_loop, afterTake_loop,
               afterTake_discarded, hr, afterTake_batches]
             omega
